@@ -30,6 +30,7 @@ type Op struct {
 	PX     string   `json:"px,omitempty"`   // join: the token's connection-type claim; "" = session, "(empty)" = the empty string
 	Via    string   `json:"via,omitempty"`  // join: "api" = present the code on the URI the access API returned, else on /session/{topic}
 	Wrap   int      `json:"wrap,omitempty"` // send: 0 plain payload, 1.. wrapped as a stats command (JSON)
+	Size   int      `json:"size,omitempty"` // send: total payload size in bytes (-1 = empty message); 0 = just the header
 }
 
 func (o Op) prefix() string {
@@ -51,6 +52,13 @@ func (o Op) path() string {
 }
 
 func (o Op) payload() []byte {
+	if o.Size != 0 {
+		n := o.Size
+		if n < 0 {
+			n = 0
+		}
+		return hubkit.PayloadSized(o.ID, o.N, o.Seq, o.TT, n)
+	}
 	if o.Fill > 0 {
 		return hubkit.PayloadFill(o.ID, o.N, o.Seq, o.TT, o.Fill)
 	}
@@ -66,6 +74,19 @@ func (o Op) payload() []byte {
 		return []byte(`{"cmd":"UPDATE","note":"` + tag + `"}`)
 	}
 	return []byte(tag)
+}
+
+func (o Op) tiny() bool { return o.Size == -1 || (o.Size > 0 && o.Size < 12) }
+
+// sized gives some sends a size at one of the thresholds (a few large ones per history is enough)
+func sized(r *lib.Rng, o Op) Op {
+	if r.Chance(1, 5) {
+		o.Size = hubkit.Thresholds[r.Intn(len(hubkit.Thresholds))]
+		if o.Size == 0 {
+			o.Size = -1
+		}
+	}
+	return o
 }
 
 type Seen struct {
@@ -108,6 +129,10 @@ func (o Op) coq() string {
 	size := len(hubkit.PayloadFill(o.ID, o.N, o.Seq, o.TT, 0)) + o.Fill
 	if o.Fill == 0 {
 		size = len(o.payload())
+	}
+	if o.tiny() {
+		// a message too short to identify itself: no payload symbol on the model side
+		return lib.App("OSend", lib.N(o.N), lib.N(uint64(o.MT)), lib.N(uint64(size)), "[]")
 	}
 	return lib.App("OSend", lib.N(o.N), lib.N(uint64(o.MT)), lib.N(uint64(size)), "["+lib.N(o.ID)+"]")
 }
@@ -213,7 +238,7 @@ func genCase(r *lib.Rng, mask int) []Op {
 		}
 		seq++
 		nextID++
-		ops = append(ops, Op{K: "send", N: p.name, TT: tt, MT: 1 + r.Intn(2), ID: nextID, Seq: seq})
+		ops = append(ops, sized(r, Op{K: "send", N: p.name, TT: tt, MT: 1 + r.Intn(2), ID: nextID, Seq: seq}))
 	}
 	return ops
 }
@@ -306,7 +331,7 @@ func genDeferred(r *lib.Rng, mask int) []Op {
 		default:
 			seq++
 			nextID++
-			ops = append(ops, Op{K: "send", N: p.name, TT: p.tt, MT: 1 + r.Intn(2), ID: nextID, Seq: seq})
+			ops = append(ops, sized(r, Op{K: "send", N: p.name, TT: p.tt, MT: 1 + r.Intn(2), ID: nextID, Seq: seq}))
 		}
 	}
 	return ops
@@ -339,6 +364,7 @@ type needle struct {
 }
 
 type finfo struct {
+	tiny  int // one-byte messages (they identify nothing)
 	tags  []hubkit.Tag
 	alien []needle // byte patterns of payloads sent by connections without write scope found in this frame
 }
@@ -373,13 +399,13 @@ func needlesOf(c *Case) []needle {
 
 func newDigest(ns []needle, stats bool) func(*hubkit.Frame) {
 	return func(f *hubkit.Frame) {
-		tags, junk := hubkit.ParseTags(f.Data)
+		tags, junk, tiny := hubkit.ParseTagsTiny(f.Data)
 		if junk > 0 && !stats {
 			tags = append(tags, hubkit.Tag{ID: 0})
 		}
 		// on topic stats the relay's own reporter publishes JSON reports, and commands are JSON around
 		// the self-identifying payload: bytes outside payloads are expected there and not compared
-		fi := finfo{tags: tags}
+		fi := finfo{tags: tags, tiny: tiny}
 		// a frame that is, byte for byte, a sequence of well-formed payloads with their own fillers has no
 		// room for anything else (its senders are judged by the headers); any other frame is searched
 		dirty := junk > 0
@@ -432,7 +458,7 @@ func genPrefix(r *lib.Rng) []Op {
 	for i, n := 0, r.Range(6, 12); i < n; i++ {
 		seq++
 		nextID++
-		ops = append(ops, Op{K: "send", N: parts[r.Intn(len(parts))], TT: tt, MT: 1 + r.Intn(2), ID: nextID, Seq: seq})
+		ops = append(ops, sized(r, Op{K: "send", N: parts[r.Intn(len(parts))], TT: tt, MT: 1 + r.Intn(2), ID: nextID, Seq: seq}))
 	}
 	return ops
 }
@@ -614,9 +640,12 @@ func runCase(k *hubkit.Kit, c *Case, res *lib.Result) []*hubkit.Peer {
 				continue
 			}
 			res.Count("send:by-writer")
+			if o.Size != 0 {
+				res.Count(fmt.Sprintf("send:size-%d", len(o.payload())))
+			}
 			// waiting hint only (never compared)
 			for _, q := range order {
-				if q != p && q.Refused == "" && q.Conn != nil && q.TokenTopic == p.TokenTopic && has(q.Scopes, "read") {
+				if q != p && q.Refused == "" && q.Conn != nil && q.TokenTopic == p.TokenTopic && has(q.Scopes, "read") && !o.tiny() {
 					if ended, _, _ := q.Ended(); !ended {
 						expected[q.Name]++
 					}
@@ -669,6 +698,38 @@ func oracle(c Case, idx int, peers []*hubkit.Peer, res *lib.Result) {
 	byName := map[uint64]*hubkit.Peer{}
 	for _, p := range peers {
 		byName[p.Name] = p
+	}
+	// one-byte messages carry no sender: a connection may have received at most as many as connections
+	// WITH the write scope (other than itself) sent on its topic while it was connected
+	since, until := map[uint64]int{}, map[uint64]int{}
+	for i, o := range c.Ops {
+		switch o.K {
+		case "join", "connect":
+			since[o.N] = i
+		case "leave":
+			until[o.N] = i
+		}
+	}
+	for _, p := range peers {
+		if p.Conn == nil {
+			continue
+		}
+		got := 0
+		for _, f := range p.Frames() {
+			got += f.Info.(finfo).tiny
+		}
+		allowed := 0
+		for i, o := range c.Ops {
+			if o.K == "send" && o.tiny() && o.Size > 0 && o.N != p.Name && o.TT == p.TokenTopic && i > since[p.Name] && (until[p.Name] == 0 || i < until[p.Name]) {
+				if sp := byName[o.N]; sp != nil && has(sp.Scopes, "write") {
+					allowed++
+				}
+			}
+		}
+		if got > allowed {
+			res.Violate(lib.Violation{Clause: "nonwriter-heard", Case: idx, Key: "nonwriter-heard",
+				Detail: fmt.Sprintf("connection %d received %d one-byte messages, but connections with write scope sent only %d on its topic while it was connected", p.Name, got, allowed), Replay: c})
+		}
 	}
 	for i, p := range peers {
 		rd, wr := has(p.Scopes, "read"), has(p.Scopes, "write")
